@@ -183,15 +183,14 @@ func linearizable(ops []*opRec) bool {
 func TestC31(t *testing.T) {
 	run := evid.Start("C31", "model_checking")
 	agg := mc.NewAgg(run)
-	bound := 2
+	bound := 3
 	scen := [][][]string{
 		{{"A"}, {"C"}},
 		{{"A"}, {"A"}},
 		{{"A"}, {"A"}, {"C"}},
 		{{"A", "C"}, {"C", "A"}},
 	}
-	if !run.Quick() {
-		bound = 3
+	{
 		scen = append(scen, [][]string{{"A"}, {"C"}, {"C"}, {"A"}}, [][]string{{"A", "A"}, {"C", "A"}, {"A", "C"}})
 	}
 	for _, sc := range scen {
@@ -204,10 +203,7 @@ func TestC31(t *testing.T) {
 		agg.Add(res, func(v *vsync.Violation) string { return "accept-close-race" })
 	}
 	agg.Finish(true)
-	maxK := 2
-	if !run.Quick() {
-		maxK = 3
-	}
+	maxK := 3
 	exploreOwners(t, run, maxK)
 	run.Cov["preemption_bound"] = bound
 	run.Assumptions = append(run.Assumptions, "scheduling points at every lock/channel/go operation of link/solicit; data-race freedom between them is checked by the separate free-running -race pass")
